@@ -127,7 +127,26 @@ F8b == { Case("F8", <<Rule("start", Alt(Alt(Cat(Cat(NT("start"), A), NT("start")
            a \in {"left", "right"}, o \in { p \in [1..3 -> 1..3] : \A x, y \in 1..3 : x # y => p[x] # p[y] },
            hs \in { << HTerm("a", TRUE), HRule("start", Cat(Cat(NT("start"), A), NT("start"))), HRule("start", Cat(Cat(NT("start"), B), NT("start"))) >> } }
 
-All == F8b \cup F3b \cup F8 \cup F7 \cup F1 \cup F2 \cup F2b \cup F2c \cup F2d \cup F3 \cup F4 \cup F6
+\* ---- F9: parenthesised alternations and concatenations as the left, right or both operands of the same or the other
+\* operator, two and three levels deep (the typed tree flattens them: operand ORDER is what is checked) ----
+Bin(b, l, r) == IF b = "cat" THEN Cat(l, r) ELSE Alt(l, r)
+Grp(t) == Un("grp", t)
+BinOps == {"cat", "alt"}
+F9all == UNION { {
+        Case("F9", <<Rule("start", Bin(b1, Grp(Bin(b2, A, B)), C)), XRule>>),
+        Case("F9", <<Rule("start", Bin(b1, A, Grp(Bin(b2, B, C)))), XRule>>),
+        Case("F9", <<Rule("start", Bin(b1, Grp(Bin(b2, A, B)), Grp(Bin(b3, C, X)))), XRule>>),
+        Case("F9", <<Rule("start", Bin(b1, A, Bin(b1, Grp(Bin(b2, B, C)), X))), XRule>>),
+        Case("F9", <<Rule("start", Bin(b1, Bin(b1, Grp(Bin(b2, A, B)), C), X)), XRule>>),
+        Case("F9", <<Rule("start", Bin(b1, Grp(Bin(b2, A, B)), Bin(b3, C, X))), XRule>>),
+        Case("F9", <<Rule("start", Bin(b1, Grp(TAlt(A)), B)), XRule>>),
+        Case("F9", <<Rule("start", Bin(b1, B, Grp(TAlt(Bin(b2, A, C))))), XRule>>),
+        Case("F9", <<Rule("start", Un("opt", Bin(b1, Grp(Bin(b2, A, B)), C))), XRule>>)
+      } : b1 \in BinOps, b2 \in BinOps, b3 \in BinOps }
+\* (only trees the printer can write without adding parentheses of its own)
+F9 == { c \in F9all : Printable(c.decls[1].rhs[1]) }
+
+All == F9 \cup F8b \cup F3b \cup F8 \cup F7 \cup F1 \cup F2 \cup F2b \cup F2c \cup F2d \cup F3 \cup F4 \cup F6
 ASSUME /\ ndJsonSerialize("gen_specs.ndjson", SetToSeq(All))
        /\ PrintT(<<"GENERATED", Cardinality(All), "F1", Cardinality(F1), "F2", Cardinality(F2) + Cardinality(F2b) + Cardinality(F2c) + Cardinality(F2d), "F3", Cardinality(F3), "F4", Cardinality(F4)>>)
 =============================================================================
